@@ -227,7 +227,7 @@ class FileCase:
     __slots__ = ("src", "target", "files", "payload", "root_im", "file_im", "root_mo", "file_mo", "skipped", "tree")
 
 
-def run_case(project: Path, target_rel: str, src: str, excluded=()):
+def run_case(project: Path, target_rel: str, src: str, excluded=(), excluded_imports=()):
     """Real S2 and S4 on `src` written at project/target_rel; returns a FileCase (payload for the
     model + the implementation's snapshots), or one with `.skipped` set."""
     c = FileCase()
@@ -237,7 +237,7 @@ def run_case(project: Path, target_rel: str, src: str, excluded=()):
     (project / target_rel).write_text(src)
     target = Path(target_rel)
     with impl.in_dir(str(project)):
-        impl.reset_config(target=target, _excluded_names=list(excluded))
+        impl.reset_config(target=target, _excluded_names=list(excluded), _excluded_imports=list(excluded_imports))
         tree = ast.parse(src)
         c.tree = tree
         with enter_file(target):
